@@ -994,6 +994,16 @@ func c18R4(c *Ctx) {
 		portF := c.Field(r, pEgress, "AllowEntry", "Port")
 		c.Dominated(r, "matchesCarveOut: true only for an IP entry", trues, kit.NewGates().AddEdges(condEdgesOfCalls(mc, Set(isIP), true), ""), "e.IsIP()")
 		c.Dominated(r, "matchesCarveOut: true only when the IP matches", trues, kit.NewGates().AddEdges(condEdgesOfCalls(mc, Set(ipEqual), true), ""), "e.IP.Equal(ip)")
+		// the pair that is compared is the candidate itself: the address handed in, not a value computed from it
+		// (an unwrapped embedded IPv4, a canonicalised form) — every IPv6 form that merely embeds a carved-out IPv4
+		// address is a different address and stays refused
+		if ipP := argParam(mc, 0); ipP != nil {
+			for _, eq := range kit.CallsTo(mc, Set(ipEqual)) {
+				a := eq.Common().Args
+				ok := len(a) == 2 && (kit.IsVar(a[1], ipP) && kit.IsFieldLoad(a[0], c.Field(r, pEgress, "AllowEntry", "IP")) || kit.IsVar(a[0], ipP) && kit.IsFieldLoad(a[1], c.Field(r, pEgress, "AllowEntry", "IP")))
+				c.R.Check(ok, r, "matchesCarveOut: the entry's IP is compared with the candidate as given", c.Pos(eq.Pos()), "e.IP.Equal(ip)", "matchesCarveOut compares the allowlist entry with something other than the candidate address it was handed (e.g. the IPv4 address embedded in it): with a carve-out for 10.0.0.5:P or 127.0.0.1:P every NAT64 / 6to4 / IPv4-compatible IPv6 address that embeds it is admitted on port P by both Stage-2 gates, although it is a different address", true)
+			}
+		}
 		c.Dominated(r, "matchesCarveOut: true only when the port matches", trues, kit.NewGates().AddEdges(kit.CmpEdges(mc, func(b *ssa.BinOp) (bool, bool) {
 			if kit.IsFieldLoad(b.X, portF) || kit.IsFieldLoad(b.Y, portF) {
 				switch b.Op {
@@ -1190,6 +1200,47 @@ func c18R5(c *Ctx) {
 				}
 			}
 			c.R.Check(has, r, "PolicyFromSettings <- "+ref.Where+" resolves against the ceiling", c.Pos(ref.Pos), "ResolvePolicy called in the same function", ref.Where+" builds a per-processor policy from settings without resolving it against the engine ceiling", false)
+			// ... and what that function hands out IS that resolution, computed from the settings it was given: every
+			// successful return yields the first result of a ResolvePolicy call fed by PolicyFromSettings and the
+			// ceiling field (never a remembered policy of an earlier configuration)
+			var fn *ssa.Function
+			if pk := c.W.Pkg(ref.Pkg); pk != nil && c.W.SSA[pk.Types] != nil {
+				for _, f := range c.W.AllFuncs(c.W.SSA[pk.Types]) {
+					for _, cl := range kit.CallsTo(f, Set(pfs)) {
+						if cl.Pos() == ref.Pos || c.Pos(cl.Pos()) == c.Pos(ref.Pos) {
+							fn = f
+						}
+					}
+				}
+			}
+			if fn == nil || fn.Signature.Results().Len() != 2 || kit.ErrIndex(fn) != 1 {
+				continue
+			}
+			denyAll := c.Fn(r, pEgress, "DenyAll")
+			ceilF := c.Field(r, pProc, "Service", "egressCeiling")
+			for _, ret := range kit.Returns(fn) {
+				if !kit.RetNil(ret, 1) {
+					continue
+				}
+				v := kit.RetVal(ret, 0)
+				ok := false
+				if call, isCall := v.(*ssa.Call); isCall && kit.CalleeOf(call.Common()) == denyAll {
+					ok = true
+				}
+				for _, call := range kit.CallsTo(fn, Set(rp)) {
+					ex, isEx := kit.Unwrap(v).(*ssa.Extract)
+					if !isEx || ex.Tuple != call.Value() || ex.Index != 0 {
+						continue
+					}
+					a := call.Common().Args
+					fromSettings := kit.DerivesFrom(a[0], func(x ssa.Value) bool {
+						cl, isC := x.(*ssa.Call)
+						return isC && kit.CalleeOf(cl.Common()) == pfs
+					})
+					ok = fromSettings && ceilF != nil && kit.IsFieldLoad(a[1], ceilF)
+				}
+				c.R.Check(ok, r, ref.Where+": the policy handed out is ResolvePolicy(PolicyFromSettings(current settings), ceiling)", c.Pos(posOf(ret)), "first result of ResolvePolicy", ref.Where+" can return a policy that is not the resolution of the processor's current settings against the engine ceiling (a cached / remembered value): a processor re-created under the same id, or opened after its config narrowed, keeps allowlist carve-outs, secret grants and limits its configuration no longer contains", true)
+			}
 		}
 	}
 }
